@@ -986,6 +986,12 @@ class TreeSim(taps.Sim):
         root = self.root
         if not root.stale:
             return
+        mv = self.model.value(self.model.root)
+        if not root.fixed_income and not root.bankrupt and not (mv > REL * self.model.gross()):
+            # the next update would declare bankruptcy and liquidate: that is a new event performed by the
+            # update, not the delivery of pending changes (cash / position reads need no refresh by design)
+            self.incon("freshness_pending_bankruptcy")
+            return
         self.fire("freshness_fork")
         cur = taps.CUR
         taps.set_current(None)
